@@ -758,3 +758,60 @@ def c04_affix(R):
                 except BaseException as e:
                     print(src, 'is accepted, the VM raises', type(e).__name__, e); print('REPLAY-CONFIRMED')
                 """, src=src), label=label)
+
+
+@family("C04.swizzle.type", props=["C04", "C09", "C01"], functions=["nsl.passes.ComputeTypes::ComputeSwizzleType"],
+        assumptions=["input types enumerated: float / int / uint scalars-as-components x 2, 3, 4 components; mask lengths 1-4; every ordered pair of requests in one process "
+                     "(the type of a swizzle depends on its own operand only, not on what was asked before)"])
+def c04_swizzle_type(R):
+    """ComputeSwizzleType(T^n, mask): the component type of T^n for a one-letter mask, otherwise the vector of THAT component type with
+    len(mask) components -- for every component type, whatever swizzle was typed before in this process (int swizzles after float ones)."""
+    import itertools
+    from nsl import types
+    f = resolve("nsl.passes.ComputeTypes::ComputeSwizzleType")
+    comps = {"float": types.Float, "int": types.Integer, "uint": types.UnsignedInteger}
+    reqs = [(cn, n, k) for cn in comps for n in (2, 3, 4) for k in (1, 2, 3, 4)]
+
+    def ask(cn, n, k):
+        t = types.VectorType(comps[cn](), n)
+        mask = "xyzw"[:n][:k] if k <= n else ("x" * k)
+        return f(t, mask)
+
+    def right(res, cn, k):
+        if k == 1:
+            return type(res) is comps[cn]
+        return isinstance(res, types.VectorType) and type(res.GetComponentType()) is comps[cn] and res.GetComponentCount() == k
+
+    bad = []
+    for (a, b) in itertools.product(reqs, repeat=2):
+        ra = ask(*a)
+        rb = ask(*b)
+        if not right(ra, a[0], a[2]) or not right(rb, b[0], b[2]):
+            bad.append((a, b, str(ra), str(rb)))
+    R.check("C04.swizzle.type", "nsl.passes.ComputeTypes::ComputeSwizzleType", not bad,
+            detail=f"{len(bad)} of {len(reqs) ** 2} ordered request pairs (component type, vector size, mask length) give a wrong type; first: {bad[:3]}",
+            replay=script("""
+                import io, contextlib
+                from nsl import Compiler, LinearIR, VM
+                src = 'export function f(float4 a, int4 b) -> int2 { float2 t = a.xy; int2 r = (b.zw / 2); return r; }'
+                with contextlib.redirect_stdout(io.StringIO()):
+                    r = Compiler.Compiler().Compile(src)
+                l = LinearIR.Linker(); l.AddModule(r.IRModule)
+                got = VM.VirtualMachine(l.Link()).Invoke('f', a=[1.0, 2.0, 3.0, 4.0], b=[1, 2, -7, 7])
+                print(src, '->', got, 'expected [-3, 3]')
+                if got != [-3, 3] or not all(isinstance(x, int) for x in got): print('REPLAY-CONFIRMED')
+                """))
+    # end to end: swizzles of both component types in one program (and in two programs compiled one after the other)
+    progs = [("export function f(float4 a, int4 b) -> int2 { float2 t = a.xy; int2 r = (b.zw / 2); return r; }", dict(a=[1.0, 2.0, 3.0, 4.0], b=[1, 2, -7, 7]), [-3, 3]),
+             ("export function f(int4 b, float4 a) -> float2 { int2 t = b.xy; float2 r = (a.zw / 2); return r; }", dict(a=[1.0, 2.0, 3.0, 5.0], b=[1, 2, -7, 7]), [1.5, 2.5]),
+             ("export function f(int3 b) -> int3 { return (b.zyx / 2); }", dict(b=[-7, 7, 5]), [2, 3, -3])]
+    for order in (progs, list(reversed(progs))):
+        for src, args, want in order:
+            r, exc = tc.compile_quiet(src, None)
+            label = src.split("{")[1].split(";")[0].strip()[:30] + ("" if order is progs else ",reversed-order")
+            if r is None:
+                R.check(f"C04.swizzle.type.e2e[{label}]", "nsl.passes.ComputeTypes::ComputeSwizzleType", False, detail=f"rejected: {exc!r}\n{src}")
+                continue
+            got = make_vm(r).Invoke("f", **args)
+            R.check(f"C04.swizzle.type.e2e[{label}]", "nsl.passes.ComputeTypes::ComputeSwizzleType", got == want and all(type(g) is type(w) for g, w in zip(got, want)),
+                    detail=f"{src}\nreturned {got!r}, expected {want!r}")
